@@ -13,9 +13,9 @@ RULE = ("all histories of <= N operations over {write 1 byte, write 3 bytes, wri
         "crash before each mutating system call of that write, then the log is reopened, two more writes are made and the files "
         "are checked again. Chunks carry distinct bytes so positions are unambiguous. non-trivial = distinct (config, history, "
         "crash plan) with a crash strictly inside rotate(), plus distinct crash-free histories with >= 1 rotation")
-BOUNDS = {"quick": "N = 4", "thorough": "N = 6"}
+BOUNDS = {"quick": "N = 5", "thorough": "N = 6"}
 ASSUMPTIONS = ["process-crash model (completed system calls persist; the log file is opened unbuffered by LogFile itself)"]
-MIN = {"quick": {"evaluations": 15000, "nontrivial": 5000, "outcomes": 3}}
+MIN = {"quick": {"evaluations": 140000, "nontrivial": 65000, "outcomes": 3}}
 
 KINDS = ["b1", "b3", "t1", "b4", "reopen"]
 PRE = [0]       # rotated files that existed before the LogFile was created (current execution)
@@ -199,11 +199,11 @@ PRE_CONFIGS = [((1, None), 10), ((3, None), 11), ((1, 2), 3), ((3, 1), 2), ((1, 
 
 
 def shards(tier, seed):
-    n = 4 if tier == "quick" else 6
+    n = 5 if tier == "quick" else 6
     hs = list(histories(n))
     out = []
     for cfg in CONFIGS:
-        for part in split(hs, 6 if tier == "quick" else 16):
+        for part in split(hs, 12 if tier == "quick" else 16):
             out.append((cfg, part, 0))
     hs2 = list(histories(3 if tier == "quick" else 4))
     for cfg, pre in PRE_CONFIGS:
